@@ -934,8 +934,8 @@ class UnionSerializer(TypeSerializer[T, np.object_]):
         union_value = cast(UnionCaseProtocol, value)
 
         tag_index = union_value.index + self._offset
-        stream.ensure_capacity(1)
-        stream.write_byte_no_check(tag_index)
+        # the format defines the index as an unsigned varint (two bytes from 128 cases on)
+        stream.write_unsigned_varint(tag_index)
         type_case = self._cases[tag_index]
         assert type_case is not None
         type_case[1].write(stream, union_value.value)
@@ -944,7 +944,7 @@ class UnionSerializer(TypeSerializer[T, np.object_]):
         self.write(stream, cast(T, value))
 
     def read(self, stream: CodedInputStream) -> T:
-        case_index = stream.read_byte()
+        case_index = stream.read_unsigned_varint()
         if case_index == 0 and self._offset == 1:
             return None  # type: ignore
         case_type, case_serializer = self._cases[case_index]  # type: ignore
